@@ -59,4 +59,11 @@ def render : List Word → List Ch
   | [w] => w.chars
   | w :: ws => w.chars ++ us :: render ws
 
+def charOfCh : Ch → Char
+  | lower n => Char.ofNat (97 + n) | upper n => Char.ofNat (65 + n)
+  | digit n => Char.ofNat (48 + n) | us => '_'
+
+/-- the identifier as text -/
+def toString (s : List Ch) : String := String.ofList (s.map charOfCh)
+
 end Casing
